@@ -51,7 +51,7 @@ METHODS = ["replacement", "single_pass", "dynamic"]
 
 
 def n_cases(tier):
-    return 150 if tier == "quick" else 3000
+    return 480 if tier == "quick" else 3000
 
 
 def _size(rng, large):
